@@ -246,6 +246,9 @@ func newKeyRegistry() *keyRegistry { return &keyRegistry{ids: map[string]int{}} 
 // idOfPublic names a public key by first occurrence (fingerprint of algorithm + key bits)
 func (r *keyRegistry) idOfPublic(alg pkix.AlgorithmIdentifier, bits []byte) int {
 	params := alg.Parameters.FullBytes
+	if len(params) == 0 && (alg.Parameters.Tag != 0 || alg.Parameters.Class != 0 || len(alg.Parameters.Bytes) != 0) {
+		params, _ = asn1.Marshal(alg.Parameters) // e.g. asn1.NullRawValue, which carries no FullBytes
+	}
 	fp := alg.Algorithm.String() + "|" + hex.EncodeToString(params) + "|" + hex.EncodeToString(bits)
 	if id, ok := r.ids[fp]; ok {
 		return id
